@@ -33,7 +33,7 @@ META = {
     "ready": True,
     "category": "proof",
     "technique": "Lean 4 theorems on the C04 free-list/collector model (free-slot accounting invariant over all operation lists, sweep completeness by graph reachability, reuse before growth, weak box clearing) + heap statistics of the real engine sampled over long allocation patterns with a bounded live set",
-    "level_text": "Proved for all heaps, roots and operation lists (SteelVerif/C19/Props.lean): after every operation alloc_count equals the number of slots whose mark bit is clear, the cursor slot is free and addresses are distinct (count_inv; also for marking several root sets one after the other with summed statistics — and a `decide`d witness that dropping the first counter, the code before b0ffd538, breaks it); after a full collection every slot still marked allocated is reachable from the roots along the fields the marker follows, so garbage of any shape — chains, cycles of any length, self-capturing closures — is free (sweep_complete), and the marker follows no field outside the specification table; allocate always hands out an existing free slot and extends the list only when it took the last one (reuse_before_grow); a weak box whose private slot is unreachable reports cleared after a collection; root_token_release: in the host-root table (keys (generation, offset), generation bumped by every full collection) a value whose token was dropped — after any number of other roots, drops and collections — is a host root of no later collection, and until then it is one (root_token_live), with a `decide`d witness that releasing under the CURRENT generation leaks once a collection separates rooting and release; heap_bounded: for every operation list (allocations under the 95 % policy, explicit collections anywhere) in which each full collection finds at most M >= EXTEND_CHUNK live slots, the number of slots never exceeds 2*M*2^RESET_LIMIT (= max(L, 25600) * 2^10 for the constants of the code) and grow_count stays in 1..RESET_LIMIT+1, independent of the number of operations (growth-then-compaction policy; the policy leaves two free slots so FreeList::allocate itself never extends). Resident memory of the process (Arc allocations, Vec capacity, the allocator, reference-counted data whose release depends on steel-rc — property C05) is outside the model: the 'bounded memory' clause is checked on runs only (slot counts against the bound, RSS plateau over rounds with a constant live set).",
+    "level_text": "Proved for all heaps, roots and operation lists (SteelVerif/C19/Props.lean): after every operation alloc_count equals the number of slots whose mark bit is clear, the cursor slot is free and addresses are distinct (count_inv; also for marking several root sets one after the other with summed statistics — and a `decide`d witness that dropping the first counter, the code before b0ffd538, breaks it); after a full collection every slot still marked allocated is reachable from the roots along the fields the marker follows, so garbage of any shape — chains, cycles of any length, self-capturing closures — is free (sweep_complete), and the marker follows no field outside the specification table; allocate always hands out an existing free slot and extends the list only when it took the last one (reuse_before_grow); a weak box whose private slot is unreachable reports cleared after a collection; root_token_release: in the host-root table (keys (generation, offset), generation bumped by every full collection) a value whose token was dropped — after any number of other roots, drops and collections — is a host root of no later collection, and until then it is one (root_token_live), with a `decide`d witness that releasing under the CURRENT generation leaks once a collection separates rooting and release; heap_bounded: for every operation list (allocations under the 95 % policy, explicit collections anywhere) in which each full collection finds at most M >= EXTEND_CHUNK live slots, the number of slots never exceeds 2*M*2^RESET_LIMIT (= max(L, 25600) * 2^10 for the constants of the code) and grow_count stays in 1..RESET_LIMIT+1, independent of the number of operations (the hypothesis bounds what a full collection MARKS, markedCount - every marked slot is reachable, markedCount_le_reachable, and there are at most as many as slots, markedCount_le_length, and if every reachable address lies in a list of length M then at most M are marked, markedCount_le_of_reachable; liveOK_alloc_gcFull instantiates it on a run that allocates and collects; growth-then-compaction policy; the policy leaves two free slots so FreeList::allocate itself never extends); the constants and the policy are tied to the source on every run: translate/c04_edges.py reads EXTEND_CHUNK (both impl FreeList blocks), RESET_LIMIT, the initial grow_by of FreeList::new and recognises the statements of grow_by / grow / compact / is_heap_full / percent_full and, in all three copies of the collection routine, the 0.95 threshold and `compact if grow_count > RESET_LIMIT else grow`; model_constants_match_source (decide) states that the model's default parameters ARE those constants, that they satisfy heap_bounded's side conditions and that every policy statement the model transcribes was found, and heap_bounded_source instantiates the bound with them (today: max(L, 25600) * 1024 slots). Resident memory of the process (Arc allocations, Vec capacity, the allocator, reference-counted data whose release depends on steel-rc — property C05) is outside the model: the 'bounded memory' clause is checked on runs only (slot counts against the bound, RSS plateau over rounds with a constant live set).",
     "level_note": "Trusted: Lean kernel, the C04 translator and tables, harness/generator/comparison, the #%verif-heap-stats hook. Deferred cross-thread reference drops (steel-rc merge queues, property C05) and will executors are not modelled.",
 }
 
